@@ -5,13 +5,13 @@ package main
 // committed known-findings file, write evidence, print verdict lines.
 
 import (
-	"os/exec"
 	"encoding/json"
 	"fmt"
 	"go/ast"
 	"go/parser"
 	"go/token"
 	"os"
+	"os/exec"
 	"path/filepath"
 	"regexp"
 	"runtime"
@@ -57,13 +57,13 @@ func loadKnown() (map[string]KnownFinding, error) {
 }
 
 type harnessRef struct {
-	dir    string // package dir relative to repo root
-	fn     string
-	tier   string // "" = both, "thorough" = thorough only
-	shards int    // top-level Choose farmed out over this many workers
-	shard  int
+	dir           string // package dir relative to repo root
+	fn            string
+	tier          string // "" = both, "thorough" = thorough only
+	shards        int    // top-level Choose farmed out over this many workers
+	shard         int
 	modelFallback bool // native replay first; schedule-dependent counterexamples fall back to the engine
-	model  bool // counterexamples are replayed in the engine with the vector pinned (environment faults cannot be injected natively)
+	model         bool // counterexamples are replayed in the engine with the vector pinned (environment faults cannot be injected natively)
 }
 
 var shardsRe = regexp.MustCompile(`verif:shards=([0-9]+)`)
@@ -136,18 +136,18 @@ func findHarnesses(id string) ([]harnessRef, error) {
 }
 
 type replayRec struct {
-	Property   string    `json:"property"`
-	Harness    string    `json:"harness"`
-	PkgDir     string    `json:"pkg_dir"`
-	Obligation string    `json:"obligation"`
-	Kind       string    `json:"kind"`
-	Msg        string    `json:"msg,omitempty"`
-	Finding    string    `json:"finding,omitempty"`
-	Vector     []ndValue `json:"vector"`
-	Where      string    `json:"where,omitempty"`
-	Decisions  []string  `json:"decisions,omitempty"`
-	Cmd        string    `json:"cmd"`
-	Tier       string    `json:"tier,omitempty"`
+	Property     string    `json:"property"`
+	Harness      string    `json:"harness"`
+	PkgDir       string    `json:"pkg_dir"`
+	Obligation   string    `json:"obligation"`
+	Kind         string    `json:"kind"`
+	Msg          string    `json:"msg,omitempty"`
+	Finding      string    `json:"finding,omitempty"`
+	Vector       []ndValue `json:"vector"`
+	Where        string    `json:"where,omitempty"`
+	Decisions    []string  `json:"decisions,omitempty"`
+	Cmd          string    `json:"cmd"`
+	Tier         string    `json:"tier,omitempty"`
 	nativeFailed bool
 }
 
@@ -619,6 +619,7 @@ func writeEvidence(id, tier string, seed int64, hs []harnessRef, results []*Harn
 			"load_s":                        round3(ld.load.Seconds()),
 			"ssa_build_s":                   round3(ld.build.Seconds()),
 			"exhaustive":                    false,
+			"engine_bounds":                 engineBounds(tier),
 		},
 		"assumptions": []string{
 			"library models listed under coverage.models_used return arbitrary values constrained only by their documented contract (trusted base)",
@@ -658,4 +659,29 @@ func solverVersion() string {
 		return bin
 	}
 	return bin + ": " + strings.TrimSpace(string(out))
+}
+
+// engineBounds reports the limits every harness world of this run was explored under (a path
+// or a world that hits one is reported as inconclusive, never as held).
+func engineBounds(tier string) map[string]interface{} {
+	b := defaultBounds()
+	b.WallS = 300
+	if v := os.Getenv("GOSYM_BUDGET"); v != "" {
+		fmt.Sscan(v, &b.WallS)
+	}
+	if tier == "thorough" {
+		b.WallS *= 8
+		b.QueryMs = 120_000
+		b.MaxSteps *= 10
+		b.MaxDecisions *= 4
+	}
+	return map[string]interface{}{
+		"instructions_per_path":    b.MaxSteps,
+		"decisions_per_path":       b.MaxDecisions,
+		"call_depth":               b.MaxDepth,
+		"solver_query_timeout_ms":  b.QueryMs,
+		"wall_s_per_harness_world": b.WallS,
+		"bounds_in_harnesses":      "see enumerated_dimensions (every Choose with its arity), cuts (named assumptions with the number of paths they were applied on) and the harness doc comments",
+		"outside_the_bounds_means": "nothing is claimed; a world that exhausts a limit makes the run INCONCLUSIVE (exit 2)",
+	}
 }
